@@ -425,6 +425,38 @@ func (r *Runner) Fabricate(g *rng.R, flavor string) *Submission {
 			c, m := r.mkV1(g, tip, id, val, 0)
 			add1(c, m)
 		}
+	case "heavy-set-conflict-v1", "heavy-set-conflict-v2":
+		// valid against the tip on its own: a chain of heavy new members over a free input, then a
+		// member that double-spends an input of a pooled transaction -> refused as a whole
+		used := r.usedInputs()
+		e, ok := pick()
+		if !ok || len(used) == 0 {
+			return nil
+		}
+		n := 4 + g.Intn(2)
+		if v2 {
+			t, m := r.mkV2(g, tip, e, 500_000)
+			add2(t, m)
+			for i := 1; i < n; i++ {
+				c, m := r.mkV2(g, tip, t.EphemeralSiacoinOutput(len(t.SiacoinOutputs)-1), 500_000)
+				add2(c, m)
+				t = c
+			}
+			d, m := r.mkV2(g, tip, used[g.Intn(len(used))], 0)
+			add2(d, m)
+		} else {
+			t, m := r.mkV1(g, tip, e.ID, e.SiacoinOutput.Value, 500_000)
+			add1(t, m)
+			for i := 1; i < n; i++ {
+				id, val := changeV1(t)
+				c, m := r.mkV1(g, tip, id, val, 500_000)
+				add1(c, m)
+				t = c
+			}
+			u := used[g.Intn(len(used))]
+			d, m := r.mkV1(g, tip, u.ID, u.SiacoinOutput.Value, 0)
+			add1(d, m)
+		}
 	case "form-v1-require":
 		// a v1 contract whose proof window ends exactly at the v2 require height
 		req := r.W.Env.Net.HardforkV2.RequireHeight
